@@ -192,7 +192,13 @@ RunClauses ==
              \o (IF rid > 1 /\ ~Opts.initState /\ ~Opts.initLog /\ ~Run.args.plainTasks
                  THEN << <<"L2.resume", [st |-> Run.final.st, lg |-> Run.final.lg] = ResumeF(Cfg, Opts, [st |-> Pre.st, lg |-> Pre.lg])>> >>
                  ELSE <<>>)
-        [] Run.op = "backward" -> On("C17", C17_H(Cfg, Run))
+        [] Run.op = "backward" ->
+             On("C17", C17_H(Cfg, Run))
+             \* a backward run on a freshly built project is the specification's backward run
+             \o (IF (rid = 1 \/ Case.runs[rid - 1].op = "rebuild") /\ Run.ret = "ok" /\ ~Run.args.plainTasks
+                    /\ LogsAligned(Run.final.lg)
+                 THEN << <<"L2.backward", Run.final.lg = BackwardF(Cfg, Opts, Run.args.due, Run.args.reverse)>> >>
+                 ELSE <<>>)
         [] Run.op = "initialize" /\ rid > 1 ->
              << <<"L2.initialize", Run.ret = "ok" /\
                    LET x == InitializeFlagsF(Cfg, [st |-> Pre.st, lg |-> Pre.lg], Run.args.state, Run.args.log)
